@@ -314,13 +314,25 @@ func subFrames() mon.Sub {
 		Do: func(c *mon.C) {
 			name := helpers[c.I%len(helpers)]
 			n := lengths[c.I/len(helpers)%len(lengths)]
+			for kk := 0; kk < 4; kk++ {
+				if !frameHelperCase(c, name, n, keyOf(c, kk), keyOf(c, (kk+1)%4), kk) {
+					return
+				}
+			}
+		},
+	}
+}
+
+// frameHelperCase checks one helper with one key (all-zero, all-ones, fixed, random).
+func frameHelperCase(c *mon.C, name string, n int, key, inKey [4]byte, kk int) bool {
+	{
+		{
+			c.Count(1)
 			src := make([]byte, n)
 			c.Rng.Read(src)
-			key := keyOf(c, 3)
-			inKey := keyOf(c, 3)
 			payload := append([]byte(nil), src...)
 			f := ws.Frame{Header: ws.Header{Fin: true, OpCode: ws.OpBinary, Length: int64(n)}, Payload: payload}
-			det := map[string]interface{}{"helper": name, "len": n}
+			det := map[string]interface{}{"helper": name, "len": n, "key": fmt.Sprintf("%x", key), "frame_key": fmt.Sprintf("%x", inKey)}
 			fail := func(sig, what string) { c.Fail("frames/"+name+"/"+sig, name+": "+what, det) }
 			var out ws.Frame
 			copying := false
@@ -344,48 +356,49 @@ func subFrames() mon.Sub {
 			if unmask {
 				if out.Header.Masked || out.Header.Mask != ([4]byte{}) {
 					fail("header", "mask fields not cleared")
-					return
+					return false
 				}
 				if !bytes.Equal(out.Payload, ref.Mask(src, inKey, 0)) {
 					fail("bytes", "payload is not the XOR with the header's key")
-					return
+					return false
 				}
 			} else {
 				if !out.Header.Masked {
 					fail("header", "Masked not set")
-					return
+					return false
 				}
 				if (name == "MaskFrameWith" || name == "MaskFrameInPlaceWith") && out.Header.Mask != key {
 					fail("header", "Mask field is not the given key")
-					return
+					return false
 				}
 				if !bytes.Equal(ref.Mask(out.Payload, out.Header.Mask, 0), src) {
 					fail("bytes", "payload does not unmask to the original with the reported key")
-					return
+					return false
 				}
 			}
 			out.Header.Masked, out.Header.Mask = f.Header.Masked, f.Header.Mask
 			if out.Header != f.Header {
 				fail("header-other", "header fields other than the mask changed")
-				return
+				return false
 			}
 			if copying {
 				if !bytes.Equal(payload, src) {
 					fail("mutates-caller", "documented as copying but the caller's payload changed")
-					return
+					return false
 				}
 				if n > 0 && sameBacking(out.Payload, payload) {
 					fail("aliases-caller", "documented as copying but the result aliases the caller's payload")
-					return
+					return false
 				}
 			} else if n > 0 && !sameBacking(out.Payload, payload) {
 				fail("not-inplace", "documented as in-place but the result does not alias the input")
-				return
+				return false
 			}
-			c.Classf("%s n=%s", name, lenClass(n))
+			c.Classf("%s n=%s key=%d", name, lenClass(n), kk)
 			c.Sample(det)
-		},
+		}
 	}
+	return true
 }
 
 func main() {
